@@ -73,7 +73,9 @@ def handleOptionalParameters (lower : Bytes → Bytes) (pkt : Bytes) : Except Er
     | .error e => .error e
     | .ok qp => .ok qp.params
 
-def allZero (b : Bytes) : Bool := b.all (· = 0)
+/-- the packet's IP field names no address: all zero bytes (0.0.0.0 resp. ::), or — in the 16-byte field of the IPv6
+layout — the IPv4-mapped form of 0.0.0.0 (`net.IP.IsUnspecified`; repair D24) -/
+def allZero (b : Bytes) : Bool := b.all (· = 0) || b == List.replicate 10 0 ++ [255, 255, 0, 0, 0, 0]
 
 /-- `ParseAnnounce(r, v6Action, opts)`; `src` is the transport source address (4 or 16 bytes; empty = nil) -/
 def parseAnnounce (lower : Bytes → Bytes) (pkt src : Bytes) (v6Action : Bool) (opts : ParseOpts) : Except ErrClass AnnReq := do
